@@ -1,4 +1,4 @@
 SPECIFICATION Spec
-INVARIANTS P_C10_KeyPairing
+INVARIANTS P_C10_KeyPairing P_C10_SignerFunction
 POSTCONDITION Accepted
 CHECK_DEADLOCK FALSE
